@@ -66,6 +66,12 @@ SEEDS = {
  'C02e': ('C02', 'back g_row_::execute: the entry step calls execute_entry<next_state_type> instead of convert_event_and_execute_entry<next_state_type,T2>', 'guard-only row into direct<> / fork / entry_pt: every region enters its initial substate'),
  'C03e': ('C03', 'the three non-default switch policies: after_entry returns current_state ("the switch already happened") - the already exited source is written back', 'any non-default active_state_switch_policy and one external transition'),
  'C07e': ('C07', 'back frow::execute ends with return res ? HANDLED_TRUE : HANDLED_FALSE', 'inner guards all false and an outer row on the submachine state: the rejected event is reported as handled, the outer row never tried'),
+ 'C08e': ('C08', 'backmp11 history_impl (both shallow variants): entry visit with visit_mode::active_recursive ("deep history")', 'history submachine re-entered with a region coming up in a substate that is itself a machine: its entry behaviours run twice'),
+ 'C09e': ('C09', 'backmp11 transition::execute: the exit-point-active test moved below the guard and the after_guard assignment', 'active_state_switch_before_transition; the exit point event sent from outside while the exit point is not active: the region id is overwritten'),
+ 'C10e': ('C10', 'back11 start() / start(Event): the message queue is drained before the completion event of the initial states', 'back11, an initial state with a completion transition, an event raised by an initial entry behaviour (or enqueued before start)'),
+ 'C11e': ('C11', 'backmp11 process_completion_transition: the interrupted half of the blocking test dropped', 'one event sends a region into an interrupt state and another region into a state with a completion transition'),
+ 'C12e': ('C12', 'backmp11 transition::execute: on_state_entry_completed (queues the completion occurrence) moved before the target entry behaviour', 'target state owns a completion transition and its entry throws: the stale completion occurrence fires after exception_caught'),
+ 'C13e': ('C13', 'back11 do_pre_msg_queue_helper: re-uses enqueue_event_helper - the queued call loses EVENT_SOURCE_DIRECT', 'a submachine behaviour sends its own machine an event nothing handles when dequeued: back11 no longer calls no_transition'),
  'C13b': ('C13', 'backmp11 favor_runtime_speed needs_forward_transition: no longer looks into sub-submachines (a type computation)', 'three-level hierarchy, event only the innermost machine has rows for, middle machine does not mention it'),
  'C14a': ('C14', 'puml parse_row_right: action length clamped to 0 when the guard is written before the action list', 'a transition line of the form  A -> B : ev [guard] / action'),
  'C14c': ('C14', 'functor Internal<> rows with an action always answer HANDLED_TRUE (instead of get_functor_return_value<Action>)', 'state-local internal row whose action defers (Defer or a deferring sequence): answers TRUE, the back-end re-dispatches the deferred event at once'),
